@@ -1,6 +1,6 @@
 // Package vrt is the deterministic cooperative scheduler that the instrumented copies of taskctl's
 // packages are linked against (see /verif/DESIGN.md §2). It is injected into the taskctl module as
-// the virtual package github.com/taskctl/taskctl/internal/vrt through `go build -overlay`.
+// the virtual package github.com/taskctl/taskctl/vrt through `go build -overlay`.
 //
 // Exactly one registered thread runs at a time. Every shimmed synchronisation operation calls
 // Point() first; at a point the running thread computes the enabled set in canonical order, takes
@@ -443,7 +443,7 @@ func trimStack(st string) string {
 	var out []string
 	for i := 0; i < len(lines); i++ {
 		l := lines[i]
-		if strings.Contains(l, "internal/vrt") || strings.HasPrefix(l, "runtime") || strings.HasPrefix(l, "panic(") || strings.Contains(l, "/runtime/") {
+		if strings.Contains(l, "taskctl/vrt") || strings.HasPrefix(l, "runtime") || strings.HasPrefix(l, "panic(") || strings.Contains(l, "/runtime/") {
 			continue
 		}
 		out = append(out, strings.TrimSpace(l))
